@@ -2,6 +2,7 @@ package main
 
 import (
 	"fmt"
+	"go/token"
 	"go/types"
 	"reflect"
 
@@ -490,6 +491,28 @@ func (e *Engine) rtMethod2(name string, rt RT, args []Value) (Value, bool) {
 			}
 		}
 		return Tuple{m, Bool{V: false}}, true
+	case "ConvertibleTo":
+		other := args[0].(Iface).V.(RT).T
+		return Bool{V: types.ConvertibleTo(rt.T, other)}, true
+	case "AssignableTo":
+		other := args[0].(Iface).V.(RT).T
+		return Bool{V: types.AssignableTo(rt.T, other)}, true
+	case "Name":
+		if n, ok := rt.T.(*types.Named); ok {
+			return Str{S: n.Obj().Name()}, true
+		}
+		if b, ok := rt.T.(*types.Basic); ok {
+			return Str{S: b.Name()}, true
+		}
+		return Str{}, true
+	case "NumField":
+		st, ok := rt.T.Underlying().(*types.Struct)
+		if !ok {
+			e.reflectPanic("NumField of non-struct type " + rt.T.String())
+		}
+		return mkInt(64, uint64(st.NumFields())), true
+	case "NumMethod":
+		return mkInt(64, uint64(len(e.exportedMethods(rt.T)))), true
 	case "NumIn":
 		sig, ok := rt.T.Underlying().(*types.Signature)
 		if !ok {
@@ -498,4 +521,46 @@ func (e *Engine) rtMethod2(name string, rt RT, args []Value) (Value, bool) {
 		return mkInt(64, uint64(sig.Params().Len())), true
 	}
 	return nil, false
+}
+
+func init() {
+	intrinsics["(reflect.Value).Convert"] = func(e *Engine, a []Value) Value {
+		v := a[0].(RV)
+		to := a[1].(Iface).V.(RT).T
+		if !v.Valid {
+			e.reflectPanic("call of reflect.Value.Convert on zero Value")
+		}
+		if !types.ConvertibleTo(v.T, to) {
+			e.reflectPanic("reflect.Value.Convert: value of type " + v.T.String() + " cannot be converted to type " + to.String())
+		}
+		if types.Identical(v.T.Underlying(), to.Underlying()) {
+			return RV{T: to, V: v.V, Valid: true}
+		}
+		if _, isI := to.Underlying().(*types.Interface); isI {
+			return RV{T: to, V: Iface{T: v.T, V: v.V}, Valid: true}
+		}
+		return RV{T: to, V: e.convert(v.T, to, v.V), Valid: true}
+	}
+	intrinsics["(reflect.Value).NumField"] = func(e *Engine, a []Value) Value {
+		v := a[0].(RV)
+		st, ok := v.T.Underlying().(*types.Struct)
+		if !v.Valid || !ok {
+			e.reflectPanic("call of reflect.Value.NumField on " + e.rvKind(v).String() + " Value")
+		}
+		return mkInt(64, uint64(st.NumFields()))
+	}
+	intrinsics["(reflect.Value).NumMethod"] = func(e *Engine, a []Value) Value {
+		v := a[0].(RV)
+		if !v.Valid {
+			e.reflectPanic("call of reflect.Value.NumMethod on zero Value")
+		}
+		return mkInt(64, uint64(len(e.exportedMethods(v.T))))
+	}
+	intrinsics["(reflect.Value).IsZero"] = func(e *Engine, a []Value) Value {
+		v := a[0].(RV)
+		if !v.Valid {
+			e.reflectPanic("call of reflect.Value.IsZero on zero Value")
+		}
+		return e.binop(token.EQL, v.T, v.V, zero(v.T))
+	}
 }
